@@ -140,6 +140,13 @@ Proof. exact ping_no_args. Qed.
 Theorem C18_pong_holds : forall tok, C18_pong_ok (Some tok) [s_PONG ++ s_sp_colon ++ tok] = true.
 Proof. exact pong_ok_model. Qed.
 
+(* any number of PINGs in a row (the check sends 40 while the event loop is blocked, more than
+   the input queue of 32 holds): one PONG each, in order.  The model is sequential: that no line
+   is lost between recv and the loop is C02/C03's subject; here it is observed (kind "busy") *)
+Theorem C18_busy_holds : forall toks, Forall (fun t => forallb trailing_byte t = true) toks ->
+  C18_busy_ok toks (flat_map (fun t => fst (pong_of_raw (wire (ping_trailing None t)))) toks) = true.
+Proof. exact busy_ok_model. Qed.
+
 (* ---------- PING from the client ---------- *)
 (* the ping goroutine exists iff PingFreq > 0 (tie_C18: postConnect's test and literal 0) *)
 Theorem C18_pings : forall c, pings_enabled c = true <-> 0 < rc_ping_freq c.
